@@ -177,11 +177,8 @@ def observe(site, kind="python", rerun=False, precached=False, async_=False):
 
 def _run(job, rerun, async_):
     if async_:
-        loop = asyncio.new_event_loop()
-        try:
-            return loop.run_until_complete(job.run_async(rerun=rerun))
-        finally:
-            loop.close()
+        # the worker's executor futures are bound to the submitter's loop
+        return job.submitter.loop.run_until_complete(job.run_async(rerun=rerun))
     return job.run(rerun=rerun)
 
 
